@@ -5,7 +5,7 @@
    rational coordinate and every string/length (no bound).
    This file holds only statements closed by [exact] and their Print Assumptions. *)
 From Coq Require Import QArith.
-From GV Require Import Prelude GeohashM GeohashP GeohashP2 GeohashP3.
+From GV Require Import Prelude GeohashM GeohashP GeohashP2 GeohashP3 CoordM GeohashCoordP.
 Open Scope Z_scope.
 
 (* the three shipped tables are consistent *)
@@ -114,6 +114,15 @@ Proof.
   exists s, x, y, ex, ey, bx. tauto.
 Qed.
 Print Assumptions C11_cell_box_east_refuted.
+
+(* ---- link with C08: the Coordinate constructor as this model uses it for the corners of a cell box IS the
+   constructor model of C08 (CoordM.norm), for every raw pair within +-1000 degrees (the corners are within
+   |lon| <= 360, |lat| <= 180) - so the theorems of C08 (range, same point of the sphere, idempotence) hold of them ---- *)
+Theorem C11_box_corner_is_C08_coordinate : forall lon lat,
+  (-1000 <= lon -> lon <= 1000 -> -1000 <= lat -> lat <= 1000 ->
+   norm lon lat = Ok (coordinate lon lat))%Q.
+Proof. exact geohash_coordinate_is_norm_1000. Qed.
+Print Assumptions C11_box_corner_is_C08_coordinate.
 
 (* ---- non-vacuity: the hypotheses are met by concrete, non-trivial values ---- *)
 (* (-5.6, 42.6) at length 5 in base 32 is "ezs42"; its cell is decoded and re-encoded *)
